@@ -384,6 +384,18 @@ Result<WorkResult, WorkError>
     {
         Ok(resolutions) =>
         {
+            /*  A target that was just moved away or brought in from the cache is not the
+                file the blob's remembered state describes.  Forget that state, so that the
+                timestamp shortcut cannot take the new file for the old one. */
+            for (i, resolution) in resolutions.iter().enumerate()
+            {
+                match resolution
+                {
+                    FileResolution::AlreadyCorrect => {},
+                    _ => info.blob.forget_file_state(i),
+                }
+            }
+
             if needs_rebuild(&resolutions)
             {
                 rebuild_node(
